@@ -439,6 +439,7 @@ def run(ctx):
             reqs.append({"op": "c01.eval", "raw": raw, "beta": [bool(x) for x in impl["partition"]], "tau": impl["tau"]})
         if brute:
             reqs.append({"op": "c01.brute", "raw": raw})
+        reqs.append({"op": "c01.ckpt", "raw": raw})
         pending.append((inst, impl, start, brute, raw))
         if len(ctx.samples) < 3 and inst["ncols"] >= 2 and len(inst["reads"]) >= 3:
             ctx.sample({"instance": mi, "impl": {k: v for k, v in impl.items() if k != "order"}})
@@ -458,7 +459,10 @@ def run(ctx):
                 continue
             start += 1
             mcost = ans[start]["cost"]
+            ck = ans[start + (1 if "error" in impl else 2) + (1 if brute else 0)]
             if "error" in impl:
+                if ck.get("path") is not None:
+                    ctx.disagree("c01.ckpt(path)", case, "mendelian-conflict", ck)
                 if mcost is not None:
                     ctx.disagree("c01.cost", case, "mendelian-conflict", mcost)
                     if brute and ans[start + 1]["cost"] is not None:
@@ -488,6 +492,17 @@ def run(ctx):
                     for i in range(inst["nind"])] for c in range(inst["ncols"])]
             if msr != isr:
                 ctx.disagree("c01.eval.superreads", case, isr, msr)
+            # compute_table as coded (check-pointed backtrace, Gray-code tie-breaking): the very witness is compared
+            ctx.dist("checkpoint_spacing_k", ck.get("k"))
+            if ck.get("path") is None:
+                ctx.disagree("c01.ckpt(path)", case, {"partition": impl["partition"], "tau": impl["tau"]}, ck)
+            else:
+                if ck["tau"] != impl["tau"]:
+                    ctx.disagree("c01.ckpt(transmission)", case, impl["tau"], ck["tau"])
+                if [bool(x) for x in ck["beta"]] != [bool(x) for x in impl["partition"]]:
+                    ctx.disagree("c01.ckpt(partition)", case, impl["partition"], ck["beta"])
+                if ck["superreads"] != isr:
+                    ctx.disagree("c01.ckpt(superreads)", case, isr, ck["superreads"])
             ctx.validated()
         pending.clear(); reqs.clear()
 
